@@ -265,9 +265,35 @@ def check_cache_coherence(ck, cm):
         okv = [A.norm(a) for a in c.args[:2]] == ["memento", "result"] and hv is not None and A.norm(hv) == "True"
         ck.ob(R, fa.key(c, "args"), okv, "cache receives (memento, result, has_result=True)" if okv else
               "the write-through does not pass the memoized (memento, result) with has_result=True", fa.where(c))
+    # a memento-only cache entry never answers a value read
+    gm = FA(ck, BACKEND_BASE + ".get_mementos")
+    for c in _field_calls(gm, "_memory_cache", "put"):
+        hv = A.kwarg(c, "has_result") or (c.args[2] if len(c.args) > 2 else None)
+        okh = hv is not None and A.norm(hv) == "False" and len(c.args) > 1 and A.is_none(c.args[1])
+        ck.ob(R, gm.key(c, "memento-only"), okh, "a memento found in the store is cached without a value" if okh else
+              "get_mementos caches a memento with has_result set / a value: a later read_result is served None (or junk) from the cache instead of the stored value", gm.where(c))
+    crr = FA(ck, "storage_base.MemoryCache.read_result")
+    vr = [r for r in crr.returns() if r.value is not None and A.norm(r.value).endswith(".value")]
+    hv_tests = [n.id for n in crr.cfg.nodes if n.kind == "test" and "has_value" in A.norm(n.ast)]
+    okv = bool(vr) and bool(hv_tests) and all(crr.cfg.must_pass(hv_tests, i) for r in vr for i in crr.nodes(r))
+    if okv:
+        # on the 'no value' edge the method raises KeyError (fall back to the store)
+        for t in hv_tests:
+            neg = A.norm(crr.cfg.node(t).ast).startswith("not ")
+            starts = [d for (d, l) in crr.cfg.succ[t] if l == ("T" if neg else "F")]
+            r_ = crr.cfg.reach(starts)
+            if crr.cfg.exit in r_ and any(set(crr.nodes(x)) & r_ for x in vr):
+                okv = False
+    ck.ob(R, crr.key(None, "value-only-if-has-value"), okv, "the cache serves a value only from an entry that holds one (else KeyError => store)" if okv else
+          "MemoryCache.read_result can return entry.value of a memento-only entry (has_value False): the caller gets None instead of the stored result", crr.where())
     # read path: cache consulted first, and the value read from the store is put back
     rr = FA(ck, BACKEND_BASE + ".read_result")
     loads = rr.some([c for c in rr.calls("load") if A.dotted(A.call_recv(c)) == "self.codec"], "self.codec.load call")
+    for c in _field_calls(rr, "_memory_cache", "put"):
+        hv = A.kwarg(c, "has_result") or (c.args[2] if len(c.args) > 2 else None)
+        okb = [A.norm(a) for a in c.args[:2]] == ["memento", "result"] and hv is not None and A.norm(hv) == "True" and "call:load" in rr.deps(c.args[1])
+        ck.ob(R, rr.key(c, "fill-with-loaded-value"), okb, "the value loaded from the store is what fills the cache" if okb else
+              "read_result fills the cache with something else than (memento, <loaded value>, has_result=True)", rr.where(c))
     for c in loads:
         args = [A.norm(a) for a in c.args]
         ok = len(args) == 3 and args[0].endswith("invocation_metadata.result_type") and args[1] == "self._data_source" and args[2].endswith(".content_key") \
